@@ -1,0 +1,84 @@
+//go:build verif
+
+// Contracts for govc (see /verif/DESIGN.md). Comment-only file: no executable code.
+
+package hexary
+
+// ---------------------------------------------------------------------------
+// C28: hexary accumulator: nodes are up to 16 child hashes of 32 bytes; a node's hash is the SHA3 of
+// its bytes (cached); proofs are verified link by link
+// ---------------------------------------------------------------------------
+
+//@ property C28
+// node invariant: whole number of 32-byte children, at most 16, and a cached hash is the hash of the bytes
+//@ spec nodeOK(b) = b != nil && len(b.bytes) % 32 == 0 && len(b.bytes) <= 512 && (b._hash != nil ==> seq(b._hash) == sha3(seq(b.bytes)) && len(b._hash) == 32)
+//@ func (b *node) Len() (n)
+//@   arith bv
+//@   pure
+//@   requires b != nil
+//@   ensures n == len(b.bytes) / 32
+//@ func (b *node) Full() (r)
+//@   arith bv
+//@   pure
+//@   requires b != nil
+//@   ensures r == (len(b.bytes) == 512)
+//@ func (b *node) Empty() (r)
+//@   arith bv
+//@   pure
+//@   requires b != nil
+//@   ensures r == (len(b.bytes) == 0)
+//@ func (b *node) Get(i) (h)
+//@   arith bv
+//@   pure
+//@   requires nodeOK(b) && 0 <= i && i < 16
+//@   ensures [child] i < len(b.bytes) / 32 ==> ref(h) == ref(b.bytes) && off(h) == off(b.bytes) + 32 * i && len(h) == 32
+//@   ensures [none] i >= len(b.bytes) / 32 ==> h == nil
+//@ func (b *node) GetCopy(i) (h)
+//@   arith bv
+//@   pure
+//@   requires nodeOK(b) && 0 <= i && i < 16
+//@   ensures [copy] i < len(b.bytes) / 32 ==> fresh(h) && len(h) == 32 && (forall j int :: {h[j]} 0 <= j && j < 32 ==> h[j] == b.bytes[32 * i + j])
+//@ func (b *node) Bytes() (r)
+//@   arith bv
+//@   pure
+//@   requires b != nil
+//@   ensures r == b.bytes
+//@ func (b *node) Hash() (h)
+//@   arith bv
+//@   requires nodeOK(b)
+//@   modifies b._hash
+//@   ensures [empty] len(b.bytes) == 0 ==> h == nil
+//@   ensures [hash] len(b.bytes) > 0 ==> h != nil && len(h) == 32 && seq(h) == sha3(seq(b.bytes)) && h == b._hash
+//@   ensures [inv] nodeOK(b)
+//@ func newNodeFromBytes(bytes) (n, err)
+//@   arith bv
+//@   pure
+//@   ensures [ok] err == nil ==> n != nil && fresh(n) && n.bytes == bytes && n._hash == nil && len(bytes) % 32 == 0 && len(bytes) <= 512
+//@   ensures [bad] err != nil ==> n == nil
+
+// the node store is abstract: what it returns is a well-formed node; it does not touch other nodes
+//@ func (b *nodeDB) Get(key) (n, err)
+//@   trusted
+//@   pure
+//@   ensures err == nil ==> nodeOK(n)
+//@ func (b *nodeDB) Put(br) (err)
+//@   trusted
+//@   pure
+//@   requires br != nil
+
+// Add: the supplied proof nodes are parsed into well-formed nodes at their own positions, the walk
+// continues from the latest of them, and every node that is stored afterwards exists (a proof longer
+// than the tree is deep is rejected). The link-by-link hash chain is not stated (see DESIGN.md).
+//@ spec digitAt(sa, key, i) = int((key >> uint64((sa.level - i) * 4)) & 15)
+//@ spec childSeq(n, k) = bseq(arr(n.bytes), off(n.bytes) + 32 * k, 32)
+// c is (the bytes of) a child of the node bytes p: its hash sits in one of p's 32-byte slots
+//@ spec isChild(c, p) = exists o int :: {bseq(arr(p), o, 32)} off(p) <= o && o + 32 <= off(p) + len(p) && (o - off(p)) % 32 == 0 && sha3(seq(c)) == bseq(arr(p), o, 32)
+//@ func (sa *merkleTree) Add(key, hash, proof) (err)
+//@   arith bv
+//@   nosafety
+//@   modifies all(node._hash)
+//@   requires sa != nil && nodeOK(sa.rootHash) && sa.bdb != nil && 0 <= sa.level && sa.level <= 16 && key >= 0
+//@   loop 0: invariant 0 <= i && i <= sa.level && omit == sa.level - len(proof) && len(proofBr) == len(proof) && fresh(proofBr) && off(proofBr) == 0 && nodeOK(br) && len(proof) <= sa.level
+//@   loop 0: invariant forall j int :: {proofBr[j]} 0 <= j && j < i - omit ==> proofBr[j] != nil && nodeOK(proofBr[j]) && proofBr[j].bytes == proof[j]
+//@   loop 0: invariant i > omit ==> br == proofBr[i - omit - 1]
+//@   loop 1: invariant forall j int :: {proofBr[j]} 0 <= j && j < len(proofBr) ==> proofBr[j] != nil
